@@ -161,8 +161,8 @@ def Env.legalActions (e : Env) : List (Nat × Int) :=
 /-! ## the multi-instance environment -/
 
 /-- `generate(num_jobs=nj, num_machines=nm)` with both sizes given -/
-def generateFixed (p : GenParams) (nj nm : Nat) (draws : List Nat) : Except GenErr (Instance × Nat × List Nat) :=
-  if !p.allowLess && nj < nm then .error .fewerJobs else
+def generateFixed (p : GenParams) (nj nm : Nat) (draws : List Nat) : Except GenFail (Instance × Nat × List Nat) :=
+  if !p.allowLess && nj < nm then .error ⟨.fewerJobs, draws⟩ else
   match genJobs p nm nj draws with
   | .error e => .error e
   | .ok (jobs, d) => .ok (jobs, nm, d)
@@ -206,10 +206,11 @@ def MultiEnv.make (p : GenParams) (ec : EnvCfg) (F : FilterCfg) (draws : List Na
     | some env => some { p := p, ec := ec, F := F, gs := { draws := d, counter := 1 }, env := env, space := env.space }
 
 /-- `reset()`: a new instance from the generator, a new single environment with the *constructor's* configuration,
-its reset observation, padded to the declared spaces.  Outer `none` = raised. -/
+its reset observation, padded to the declared spaces.  Outer `none` = raised.  When the generator refuses, the
+multi-environment keeps everything but its generator, which has consumed the draws made before the failing call. -/
 def MultiEnv.reset (m : MultiEnv) : MultiEnv × Option EObs :=
   match m.gs.next m.p with
-  | .error _ => (m, none)
+  | .error (_, gs') => ({ m with gs := gs' }, none)
   | .ok (I, _, gs') =>
     match Env.make { I := I, F := m.F } { m.ec with usePadding := m.env.ec.usePadding } with
     | none => ({ m with gs := gs' }, none)
